@@ -1,7 +1,7 @@
 """TRANSLATOR: the SELECT side of sqlobject/inheritance/__init__.py and iteration.py -> PyInhSel blocks.
 
 `InheritableSelectResults.__init__`, `InheritableSQLObject.select` (with its nested functions), `selectBy` and
-`_findAlternateID` (the `ENABLED` entries of `TARGETS`; the other
+`_findAlternateID`, `InheritableIteration.next` and `fetchChildren` (the `ENABLED` entries of `TARGETS`; the other
 entries are not translated yet) are translated statement by statement into the deep embedding of
 `lean/SqlObjVerif/Model/PyInhSel.lean`.  Anything outside the fragment raises ExtractError.  Conventions (those of
 pyinherit.py, extended):
@@ -863,7 +863,12 @@ class Func(object):
         if not isinstance(k, ast.Name):
             return None
         uses = [n for n in ast.walk(self.fn) if isinstance(n, ast.Name) and n.id == x]
-        if len(uses) != 4:      # the four occurrences of the idiom itself
+        before = [n for n in uses if n.lineno < s1.lineno]
+        after = sorted([n for n in uses if n.lineno > s3.end_lineno], key=lambda n: (n.lineno, n.col_offset))
+        inside = [n for n in uses if s1.lineno <= n.lineno <= s3.end_lineno]
+        # the four occurrences of the idiom itself; afterwards the name is re-bound before it is read again (and the
+        # idiom is not inside a loop whose later iterations could see ... it is re-bound by `x = D.get(K)` each time)
+        if before or len(inside) != 4 or (after and not isinstance(after[0].ctx, ast.Store)):
             return None
         return '(.dictAppend %d %s %s)' % (self.var(d), self.expr(k), self.expr(s3.value.args[0]))
 
@@ -934,7 +939,7 @@ class NestedFunc(Func):
         return [self.params[0]]
 
 
-ENABLED = ['selInit', 'select', 'selectBy', 'findAlternateID']
+ENABLED = ['selInit', 'select', 'selectBy', 'findAlternateID', 'iterNext', 'fetchChildren']
 
 
 def translate(repo):
